@@ -9,6 +9,16 @@ From the `ast` of `src/datamodel_code_generator/__init__.py`:
   construction, `parser.parse()`, file reads, imports, asserts); `raise` statements are steps of
   their own.  The first loop that contains a file-system effect is THE write loop: the list is
   split into `pre`, `loopBody`, `post` there.
+* From the first file-system effect on — and in the whole write loop, whose second iteration
+  comes after the effects of the first — classification is STRICT: only `exists/is_dir/is_file`,
+  `str.rstrip/strip` and `.format` on a variable that `generate()` assembles from string literals
+  and f-strings alone are benign; every other call, every `%` on a non-numeric left operand and
+  every subscript is a may-raise step (a user-supplied header run through `str.format` after
+  `open` is one).
+* `<text>.encode(…)` is an `encodeCheck` step; inside a loop over the same dict as the write loop it
+  is marked `perModule`. The expression it encodes and the expressions the write loop prints are
+  recorded (normalised: `x.rstrip()` ↦ `x`, `x or ''` ↦ `x`) so that Lean can decide that what is
+  printed was checked.
 * `chdir()` is flattened into save / try / chdir / yield / finally steps, separately for the
   `path is None` branch and the other one.
 
@@ -32,6 +42,8 @@ BENIGN = {
     "format", "rstrip", "strip", "items", "keys", "values", "joinpath", "as_posix", "exists",
     "is_dir", "is_file", "geturl", "now", "replace", "isoformat", "get", "print",
 }
+# the only calls treated as benign once the file system has been touched (see module docstring)
+STRICT_BENIGN = {"exists", "is_dir", "is_file", "rstrip", "strip"}
 FS_MUTATORS = {"unlink", "rename", "rmdir", "touch", "rmtree", "remove", "replace_file", "symlink_to", "hardlink_to", "chmod", "makedirs"}
 
 
@@ -71,11 +83,64 @@ def target_of(node: ast.AST, loop_var: str | None) -> str:
     return "other:" + s
 
 
+def base_expr(node: ast.AST | None) -> str:
+    """normal form of a text expression: `x.rstrip()`/`x.strip()` ↦ x, `x or ''` ↦ x"""
+    if node is None:
+        return ""
+    if isinstance(node, ast.Call) and isinstance(node.func, ast.Attribute) and node.func.attr in ("rstrip", "strip") and not node.args:
+        return base_expr(node.func.value)
+    if isinstance(node, ast.BoolOp) and isinstance(node.op, ast.Or) and len(node.values) == 2 and isinstance(node.values[1], ast.Constant) and node.values[1].value == "":
+        return base_expr(node.values[0])
+    return ast.unparse(node)
+
+
+def literal_built_names(fn: ast.FunctionDef) -> set[str]:
+    """local variables of `fn` that are assembled from string literals and f-strings only"""
+    params = {a.arg for a in [*fn.args.posonlyargs, *fn.args.args, *fn.args.kwonlyargs]}
+    ok: dict[str, bool] = {}
+
+    def lit(v: ast.AST | None) -> bool:
+        return isinstance(v, ast.JoinedStr) or (isinstance(v, ast.Constant) and isinstance(v.value, str))
+
+    for node in ast.walk(fn):
+        targets: list[ast.AST] = []
+        value = None
+        if isinstance(node, ast.Assign):
+            targets, value = node.targets, node.value
+        elif isinstance(node, (ast.AugAssign, ast.AnnAssign)):
+            targets, value = [node.target], node.value
+            if isinstance(node, ast.AnnAssign) and value is None:
+                continue
+        elif isinstance(node, (ast.For, ast.comprehension)):
+            targets, value = [node.target], None
+        elif isinstance(node, ast.withitem) and node.optional_vars is not None:
+            targets, value = [node.optional_vars], None
+        elif isinstance(node, ast.NamedExpr):
+            targets, value = [node.target], node.value
+        for t in targets:
+            for nm in [n.id for n in ast.walk(t) if isinstance(n, ast.Name)]:
+                ok[nm] = ok.get(nm, True) and lit(value) and isinstance(t, ast.Name)
+    return {n for n, good in ok.items() if good and n not in params}
+
+
+def has_fs_effect(stmts: list[ast.stmt]) -> bool:
+    f = Flatten(set())
+    f.block(stmts)
+    return any(k in EFFECTS for k, _, _ in f.steps)
+
+
 class Flatten:
-    def __init__(self) -> None:
+    def __init__(self, literal_names: set[str]) -> None:
         self.steps: list[tuple[str, str, str]] = []  # (kind, what, target)
         self.loop_vars: list[str] = []
+        self.loop_iters: list[str] = []
         self.file_vars: dict[str, str] = {}  # variable bound to an open-for-writing file -> target
+        self.literal_names = literal_names
+        self.strict_loops = 0  # inside a loop that contains a file-system effect
+
+    @property
+    def strict(self) -> bool:
+        return self.strict_loops > 0 or any(k in EFFECTS for k, _, _ in self.steps)
 
     def emit(self, kind: str, what: str, target: str = "") -> None:
         self.steps.append((kind, what, target))
@@ -100,6 +165,12 @@ class Flatten:
         for child in ast.iter_child_nodes(node):
             if isinstance(child, (ast.expr, ast.comprehension, ast.keyword)):
                 self.expr(child)
+        if isinstance(node, ast.BinOp) and isinstance(node.op, ast.Mod) and not (
+            isinstance(node.left, ast.Constant) and isinstance(node.left.value, (int, float))
+        ):
+            self.emit("mayRaise" if self.strict else "benign", "%-format")
+        elif isinstance(node, ast.Subscript) and isinstance(node.ctx, ast.Load) and self.strict:
+            self.emit("mayRaise", "subscript " + ast.unparse(node)[:30])
 
     def call(self, node: ast.Call) -> None:
         name = dotted(node.func)
@@ -131,9 +202,20 @@ class Flatten:
             if fkw is None or ast.unparse(fkw) in ("sys.stderr", "sys.stdout"):
                 self.emit("benign", "print(console)")
             else:
-                self.emit("write", "print(file=)", self.file_vars.get(dotted(fkw), "other:" + dotted(fkw)))
+                # what = the (normalised) text expression that is written; "" for a bare newline
+                self.emit("write", base_expr(node.args[0]) if node.args else "", self.file_vars.get(dotted(fkw), "other:" + dotted(fkw)))
         elif last in FS_MUTATORS or name.startswith("shutil."):
             self.emit("fsOther", name, target_of(recv, lv) if recv is not None else "other:?")
+        elif last == "encode" and recv is not None:
+            per_module = bool(self.loop_iters) and self.loop_iters[-1] != ""
+            self.emit("encodeCheck", base_expr(recv), ("iter:" + self.loop_iters[-1]) if per_module else "")
+        elif self.strict:
+            if last in STRICT_BENIGN and recv is not None:
+                self.emit("benign", name)
+            elif last == "format" and isinstance(recv, ast.Name) and recv.id in self.literal_names:
+                self.emit("benign", f"{name}(literal-built)")
+            else:
+                self.emit("mayRaise", name)
         elif last in BENIGN:
             self.emit("benign", name)
         else:
@@ -167,9 +249,15 @@ class Flatten:
             else:
                 self.expr(st.test)
                 var = ""
-            self.emit("loopBegin", ast.unparse(st.iter) if isinstance(st, ast.For) else "while")
+            it = ast.unparse(st.iter) if isinstance(st, ast.For) else ""
+            self.emit("loopBegin", it or "while")
+            effectful = has_fs_effect(st.body)
             self.loop_vars.append(var)
+            self.loop_iters.append(it)
+            self.strict_loops += effectful
             self.block(st.body)
+            self.strict_loops -= effectful
+            self.loop_iters.pop()
             self.loop_vars.pop()
             self.emit("loopEnd", "")
             self.block(st.orelse)
@@ -299,9 +387,12 @@ def chdir_tables(fn: ast.FunctionDef) -> tuple[list[tuple[str, str]], list[tuple
 def tables():
     tree = ast.parse(SRC.read_text())
     fns = {n.name: n for n in tree.body if isinstance(n, ast.FunctionDef)}
-    f = Flatten()
+    f = Flatten(literal_built_names(fns["generate"]))
     f.block(fns["generate"].body)
     pre, loop, post, loop_iter = split_at_write_loop(f.steps)
+    # an encode step is `perModule` when its loop iterates over the same expression as the write loop
+    fix = lambda steps: [(k, w, ("perModule" if k == "encodeCheck" and t == "iter:" + loop_iter and loop_iter else ("" if k == "encodeCheck" else t))) for k, w, t in steps]
+    pre, loop, post = fix(pre), fix(loop), fix(post)
     keys = key_exprs(fns["generate"], loop_iter) if loop else []
     none_steps, some_steps = chdir_tables(fns["chdir"])
     decorated = any(dotted(d) in ("contextlib.contextmanager", "contextmanager") for d in fns["chdir"].decorator_list)
@@ -309,7 +400,7 @@ def tables():
 
 
 KIND = {
-    "mayRaise": ".mayRaise", "raise": ".raise", "benign": ".benign", "mkdir": ".mkdir", "openW": ".openW",
+    "mayRaise": ".mayRaise", "raise": ".raise", "benign": ".benign", "encodeCheck": ".encodeCheck", "mkdir": ".mkdir", "openW": ".openW",
     "write": ".write", "close": ".close", "fsOther": ".fsOther", "osChdir": ".osChdir", "chdirEnter": ".chdirEnter",
     "chdirExit": ".chdirExit", "loopBegin": ".loopBegin", "loopEnd": ".loopEnd", "tryBegin": ".tryBegin",
     "finallyBegin": ".finallyBegin", "tryEnd": ".tryEnd", "ret": ".ret", "unknown": ".unknown",
@@ -325,6 +416,8 @@ def lean_target(t: str) -> str:
         return ".loopPath"
     if t == "loopPathParent":
         return ".loopPathParent"
+    if t == "perModule":
+        return ".perModule"
     if t == "":
         return ".none"
     return f"(.other {lean_string(t[len('other:'):] if t.startswith('other:') else t)})"
@@ -339,6 +432,9 @@ def generate() -> str:
         "",
         "/-- calls treated as unable to fail (trusted list of the translator) -/",
         "def benignCalls : List String :=\n  [" + ", ".join(lean_string(b) for b in sorted(BENIGN)) + "]",
+        "",
+        "/-- the only calls treated as unable to fail from the first file-system effect on (plus `.format` on a literal-built variable) -/",
+        "def strictBenignCalls : List String :=\n  [" + ", ".join(lean_string(b) for b in sorted(STRICT_BENIGN)) + "]",
         "",
     ]
 
